@@ -18,6 +18,7 @@ every write.
 -/
 import BBProofs.Multiround
 import BBProofs.RefPolicy
+import BBProofs.GenEq6
 
 namespace BB.MR
 open BB
@@ -221,5 +222,21 @@ example : ∀ p ∈ [(zfill 1 0, W.u8), (zfill 1 1, W.u16), (zfill 1 2, W.u8)],
   intro p hp q hq
   simp only [List.mem_cons, List.not_mem_nil, or_false] at hp hq
   rcases hp with rfl | rfl | rfl <;> rcases hq with rfl | rfl | rfl <;> simp [h]
+
+
+/-! ## The same for the code itself (`_BFSubcluster.__init__`, translated whole from `bitbirch.py` on this run) -/
+
+/-- code: **re-insertion checks the pairing** — building a sub-cluster from a saved buffer (what every tree-merging round
+does with the files of the previous round) raises `ValueError` exactly when the member list handed over with the buffer
+does not have as many entries as the count stored in the buffer; otherwise the object holds that buffer (dtype included),
+the majority-vote centroid of the stored sums and count, and that member list -/
+theorem C05_code_reimport (expf : Rat → Rat) (w : W) (ls : List Nat) (n : Nat) (ids : List Nat) (wi : W) (nf : PV)
+    (hk : ∀ k ∈ ls, k ≤ n) (hn : n < 2 ^ 53) :
+    BBGen._BFSubcluster_init expf BB.PV.pynone (BB.PV.arr wi ids) nf (BB.PV.arr w (ls ++ [n])) (BB.PV.bool true)
+      = if ids.length ≠ n
+        then [BB.PV.err "ValueError", BB.PV.pynone, BB.PV.pynone, BB.PV.pynone, BB.PV.pynone]
+        else BB.PV.pynone :: BB.stateOf (BB.Clu.ofBuffer w ls n ids) BB.PV.pynone := by
+  rw [BB.gen_subcluster_init_buffer expf w ls n ids wi nf true hk hn]
+  simp
 
 end BB.MR
